@@ -137,6 +137,10 @@ def run(ck):
     # ---- C19.2 counters
     create = p.find_method("AlignmentComparison", "create")
     rowsv = V("rows")
+    # a counter computed from itertools.groupby sees only *adjacent* equal keys: unless the rows are sorted by that key, later
+    # groups overwrite earlier ones and rows go uncounted
+    from .c05 import groupby_inputs_sorted
+    groupby_inputs_sorted(ck, "C19.2", only_functions={"AlignmentComparison.create"})
     for pa in explore(ck, create):
         if pa.outcome != "return" or pa.value[0] != "new":
             continue
